@@ -225,11 +225,14 @@ add("C20", "Update dropped for updatable types when delta_only is False", DIFF,
     "            elif delta_only:\n                edit_script.append(Update(source_node, target_node))\n\n        return edit_script",
     "C20.c")
 add("C20", "drop finally hash eviction", DIFF,
-    "    finally:\n        if not copy:\n            for node in chain(source_nodes, target_nodes):\n                node._hash = None\n",
+    "    finally:\n        if not copy:\n            for node in unhashed_nodes:\n                node._hash = None\n",
     "    finally:\n        pass\n", "C20.d")
-add("C20", "evict hashes of the source tree only", DIFF,
-    "            for node in chain(source_nodes, target_nodes):\n                node._hash = None\n",
-    "            for node in source_nodes:\n                node._hash = None\n", "C20.d")
+add("C20", "evict only the hashes cached for the source tree", DIFF,
+    "        [] if copy else [n for n in chain(source_nodes, target_nodes) if n._hash is None]\n",
+    "        [] if copy else [n for n in source_nodes if n._hash is None]\n", "C20.d")
+add("C08", "revert: diff() evicts the hash of every input node, cached by diff or not", DIFF,
+    "            for node in unhashed_nodes:\n                node._hash = None\n",
+    "            for node in chain(source_nodes, target_nodes):\n                node._hash = None\n", "C08.a")
 add("C20", "distiller mutates a node", DIFF,
     "    def _dice_coefficient(self, source: exp.Expr, target: exp.Expr) -> float:\n",
     "    def _verif_bad(self, source: exp.Expr) -> None:\n        source.set(\"this\", None)\n\n    def _dice_coefficient(self, source: exp.Expr, target: exp.Expr) -> float:\n",
@@ -555,3 +558,54 @@ add("C05", "revert PRQL unbound-local fix", "sqlglot/parsers/prql.py",
 add("C05", "local bound only on the matching branch and read after a non-raising error", P,
     "    def _parse_command(self) -> exp.Command:\n        self._warn_unsupported()",
     "    def _parse_command(self) -> exp.Command:\n        if self._curr:\n            verif_tok = self._curr\n        else:\n            self.raise_error(\"no token\")\n        self._prev_comments = verif_tok.comments\n        self._warn_unsupported()", "C05.h")
+
+
+# ------------------------------------------------------------------------------- additions (session 2, second half)
+add("C08", "revert SetOperation.select per-side copies", "sqlglot/expressions/query.py",
+    "                *(e.copy() if isinstance(e, Expr) else e for e in expressions),\n",
+    "                *expressions,\n", "C08.e")
+add("C08", "UnicodeString declared a leaf class although it holds an escape node", "sqlglot/expressions/query.py",
+    "class UnicodeString(Expression, Condition):\n    arg_types = {\"this\": True, \"escape\": False}\n",
+    "class UnicodeString(Expression, Condition):\n    arg_types = {\"this\": True, \"escape\": False}\n    is_primitive = True\n", "C08.f")
+add("C08", "parser builds a Literal around a parsed node", P,
+    "            exp.HexString(\n                this=token.text,",
+    "            exp.HexString(\n                this=self._parse_string() or token.text,", "C08.f")
+add("C09", "benign: loop over both owned sides of a set operation with copy=False", "sqlglot/expressions/query.py",
+    "        for query in (this.this, this.expression):", "        for query in [this.this, this.expression]:", "silent", 0)
+add("C09", "set-operation select mutates the caller's tree (loop over self's sides)", "sqlglot/expressions/query.py",
+    "        for query in (this.this, this.expression):", "        for query in (self.this, self.expression):", "C09.c")
+add("C14", "Athena delegate generators lose the unsupported level", "sqlglot/generators/athena.py",
+    "    if unsupported_level is not None:\n        kwargs[\"unsupported_level\"] = unsupported_level\n", "", "C14.e")
+add("C05", "loop relies on break after a non-raising error once the callee un-read its keyword", P,
+    "            if not prop:\n                self.raise_error(f\"Failed to parse property '{keyword}'\")\n                break\n            for p in ensure_list(prop):\n                properties.append(p)\n",
+    "            if not prop:\n                self.raise_error(f\"Failed to parse property '{keyword}'\")\n\n            properties.extend(ensure_list(prop))\n", "C05.a")
+add("C05", "revert column-constraint double retreat fix", P,
+    "                # Some constraint parsers (e.g. NOT) already un-consume their keyword when they fail\n                self._retreat(index)\n",
+    "                self._retreat(self._index - 1)\n", "C05.b")
+add("C05", "truthiness guard weakened to a None test before indexing", P,
+    "                if tokens and (type_token := tokens[0].token_type) in self.TYPE_TOKENS:",
+    "                if tokens is not None and (type_token := tokens[0].token_type) in self.TYPE_TOKENS:", "C05.i")
+add("C05", "revert parse_into empty-errors guard", P,
+    "                if e.errors:\n                    e.errors[0][\"into_expression\"] = expression_type\n",
+    "                e.errors[0][\"into_expression\"] = expression_type\n", "C05.i")
+add("C05", "revert ClickHouse VALUES () guard", "sqlglot/parsers/clickhouse.py",
+    "        if values and expressions and not isinstance(expressions[-1], exp.Tuple):",
+    "        if values and not isinstance(expressions[-1], exp.Tuple):", "C05.i")
+add("C05", "length test off by one before indexing", P,
+    "                if type_token == TokenType.NULLABLE and len(expressions) == 1:\n                    this = expressions[0]",
+    "                if type_token == TokenType.NULLABLE and len(expressions) <= 1:\n                    this = expressions[0]", "C05.i")
+add("C05", "benign: len() == 1 written as truthiness plus length", P,
+    "                if type_token == TokenType.NULLABLE and len(expressions) == 1:\n                    this = expressions[0]",
+    "                if type_token == TokenType.NULLABLE and expressions and len(expressions) < 2:\n                    this = expressions[0]", "silent", 0)
+add("C05", "revert _find_parser end-of-input guard", P,
+    "        this = []\n        while self._curr:\n            # The current token might be multiple words",
+    "        this = []\n        while True:\n            # The current token might be multiple words", "C05.j")
+add("C05", "revert FOREIGN KEY ON DELETE end-of-input guard", P,
+    "                if not self._curr:\n                    self.raise_error(f\"Expected an action after ON {kind.upper()}\")\n                    break\n                self._advance()",
+    "                self._advance()", "C05.j")
+add("C05", "peek dropped before an unconditional advance", P,
+    "        if self._match_pair(TokenType.TABLE, TokenType.FUNCTION, advance=False):\n            self._advance()",
+    "        if self._prev.token_type == TokenType.TABLE:\n            self._advance()", "C05.j")
+add("C05", "benign: peek expressed through the current token's type", P,
+    "        if self._match_pair(TokenType.TABLE, TokenType.FUNCTION, advance=False):\n            self._advance()",
+    "        if self._curr.token_type == TokenType.TABLE and self._next.token_type == TokenType.FUNCTION:\n            self._advance()", "silent", 0)
